@@ -3,7 +3,7 @@
    input (lists of notes of any length, arbitrary maps, any divisions); none is a finite sample.
    The model (Model/C05.v) is tied to partitura's code by the correspondence run of
    harness/props/c05.py on every check. *)
-From PV Require Import Lib.Base Model.C05 Model.C05_Spec Model.C05_Ext Proofs.C05_lib Proofs.C05_ties Proofs.C05 Proofs.C05_ext.
+From PV Require Import Lib.Base Lib.Round Model.C05 Model.C05_Spec Model.C05_Ext Model.C05_Inv Model.C05_Disp Proofs.C05_lib Proofs.C05_ties Proofs.C05 Proofs.C05_ext Proofs.C05_inv Proofs.C05_disp.
 From Coq Require Import QArith Sorting.Sorted Permutation.
 #[local] Open Scope Z_scope.
 
@@ -246,3 +246,103 @@ Theorem inverse_checker_sound : forall onsets durs d o du,
   o = shift_nonneg (map (to_div d) onsets).
 Proof. exact inverse_case_ok_m_sound. Qed.
 Print Assumptions inverse_checker_sound.
+
+(* ------------------------------------------------------------------ second hardening round: the inverse
+   direction as the code does it (Model/C05_Inv.v: lexsort, inferred divisions, pickup measure,
+   create_part, tie_notes cutting notes into tied pieces) composed with the forward direction *)
+
+(* O7: building a score from a note array (one note per row, a grace note when the duration is 0, every note
+   cut into a chain of tied pieces at ANY list of cut points -- whatever tie_notes / split_note choose) and
+   taking its note array is defined and returns exactly the rows' ids, onsets, durations and spelled
+   pitches, ordered by onset then pitch -- for every array, every cut points, every divisions and maps *)
+Theorem inverse_roundtrip : forall l divs A bt,
+  exists out, roundtrip l divs A bt = Some out /\
+              Permutation (map r_core out) (map i_core l) /\ StronglySorted lexle out.
+Proof. exact inverse_roundtrip_lemma. Qed.
+Print Assumptions inverse_roundtrip.
+
+(* ... hence the same onsets, durations and pitches, provided the spelling chosen for each row has the
+   row's pitch (estimate_spelling is not modelled; the checker compares i_midi with the pitch column) *)
+Theorem inverse_roundtrip_pitch : forall l divs A bt,
+  Forall (fun r => i_midi r = i_pitch r) l ->
+  exists out, roundtrip l divs A bt = Some out /\
+              Permutation (map (fun r => (r_onset r, r_dur r, r_pitch r)) out)
+                          (map (fun r => (i_on r, i_dur r, i_pitch r)) l).
+Proof. exact inverse_roundtrip_pitch_lemma. Qed.
+Print Assumptions inverse_roundtrip_pitch.
+
+(* the lexsort at the beginning of note_array_to_score: a permutation ordered by (onset, pitch, duration) *)
+Theorem inv_sort_spec : forall l, Permutation l (inv_sort l) /\ StronglySorted key_le (inv_sort l).
+Proof. intros l. exact (conj (inv_sort_perm l) (inv_sort_sorted l)). Qed.
+Print Assumptions inv_sort_spec.
+
+(* the pickup measure: for an array on a metrical grid (beat 0 at division P, divs * 4 / bt divisions per
+   beat, every beat value off by less than half a division: any float rounding) that has a note before
+   beat 0 -- wherever the FIRST note is, e.g. after a rest -- the measure (0, anacrusis_divs) ends at P *)
+Theorem anacrusis_exact : forall l divs bt P,
+  0 < divs -> 0 < bt ->
+  Forall (fun r => on_grid (beat_unit divs bt) P r /\ bt_of r = bt) l ->
+  (exists r, In r l /\ (i_onb r < 0)%Q) ->
+  anacrusis_divs l divs = P.
+Proof. exact anacrusis_exact_lemma. Qed.
+Print Assumptions anacrusis_exact.
+
+(* ... and the beat map of the rebuilt part gives every row the beat position it came with *)
+Theorem metrical_roundtrip : forall l divs bt P,
+  0 < divs -> 0 < bt ->
+  Forall (fun r => (i_onb r * beat_unit divs bt == inject_Z (i_on r - P))%Q /\ bt_of r = bt) l ->
+  (exists r, In r l /\ (i_onb r < 0)%Q) \/ (P = 0 /\ Forall (fun r => (0 <= i_onb r)%Q) l) ->
+  anacrusis_divs l divs = P /\
+  forall r, In r l -> (m_beat (rebuilt_maps divs (anacrusis_divs l divs) bt) (i_on r) == i_onb r)%Q.
+Proof. exact metrical_roundtrip_lemma. Qed.
+Print Assumptions metrical_roundtrip.
+
+(* the divisions inferred for an array with beat AND division columns: a beat duration b of the first
+   sounding row within the band (2d-1) b u < 2k < (2d+1) b u around k / (d u), u = 4 / beat type (1 without
+   time signature columns), gives d (the band contains every float32 rounding of k / (d u) for d < 2^22) *)
+Theorem divs_inference_exact : forall l r d,
+  first_nonzero l = Some r -> (0 < i_durb r)%Q -> 0 < bt_of r ->
+  ((2 * inject_Z d - 1) * (i_durb r * q4 (bt_of r)) < 2 * inject_Z (i_dur r))%Q ->
+  (2 * inject_Z (i_dur r) < (2 * inject_Z d + 1) * (i_durb r * q4 (bt_of r)))%Q ->
+  infer_divs l = Some d.
+Proof. exact divs_inference_exact_lemma. Qed.
+Print Assumptions divs_inference_exact.
+
+(* hypotheses satisfiable: 6/8 at 6 divisions, pickup of 5 divisions that begins with a rest of 2, a note cut
+   at the barline: divisions 6, pickup 5, the three rows come back with their beats -1, 0, 3 *)
+Theorem inverse_example :
+  (infer_divs (inv_sort ex_inv) = Some 6 /\ anacrusis_divs (inv_sort ex_inv) 6 = 5 /\
+   option_map (map (fun r => (r_core r, Qred (r_onb r)))) (roundtrip ex_inv 6 5 8)
+   = Some [ (("a"%string, 2, 3, 60), (-1 # 1)%Q); (("b"%string, 5, 9, 64), (0 # 1)%Q); (("c"%string, 14, 12, 62), (3 # 1)%Q) ]) /\
+  (Forall (fun r => (i_onb r * beat_unit 6 8 == inject_Z (i_on r - 5))%Q /\ bt_of r = 8) ex_inv /\
+   (exists r, In r ex_inv /\ (i_onb r < 0)%Q)).
+Proof. exact (conj ex_inv_values ex_inv_on_grid). Qed.
+Print Assumptions inverse_example.
+
+(* the time signatures note_array_to_score reads from the ts_beats / ts_beat_type columns (one entry where the
+   columns change along the sorted rows, the first moved to time 0): looked up at the onset of ANY row they give
+   back that row's signature -- for every array whose signature is a function of the onset; also when a
+   signature returns (4/4, 3/4, 4/4) *)
+Theorem ts_segments_lookup : forall l dflt,
+  StronglySorted key_le l ->
+  (forall a b, In a l -> In b l -> i_on a = i_on b -> i_ts a = i_ts b) ->
+  (forall r, In r l -> exists ts, i_ts r = Some ts) ->
+  (forall r, In r l -> 0 <= i_on r) ->
+  forall r, In r l -> i_ts r = Some (ts_at (ts_segments l) dflt (i_on r)).
+Proof. exact ts_segments_lookup_lemma. Qed.
+Print Assumptions ts_segments_lookup.
+
+(* dispatch on the input type (ensure_notearray / the note_array methods): a structured array is returned as it
+   is, a part gives its own array, a list and a PartGroup give the array of their (nested) members, and a Score
+   -- which keeps the parts of its groups as one flat list -- gives an array built from the SAME part arrays
+   in the same order as the nested list would (so nested_groups_spec speaks about the same parts) *)
+Theorem dispatch_spec : forall uniq,
+  (forall rows, ensure_notearray_m uniq (InArray rows) = Some rows) /\
+  (forall ns mp d, ensure_notearray_m uniq (InPart ns mp d) = note_array_n ns mp d) /\
+  (forall ms, ensure_notearray_m uniq (InMany CList ms) = ensure_notearray_m uniq (InMany CGroup ms) /\
+              ensure_notearray_m uniq (InMany CList ms) = option_map (tree_array uniq) (build_tree (IGroup ms))) /\
+  (forall ms t, build_tree (IGroup (dispatch_members CScore ms)) = Some t ->
+                ensure_notearray_m uniq (InMany CScore ms) = Some (tree_array uniq t) /\
+                exists t', build_tree (IGroup ms) = Some t' /\ leaves t = leaves t').
+Proof. exact dispatch_spec_lemma. Qed.
+Print Assumptions dispatch_spec.
